@@ -88,6 +88,10 @@ struct RefEval {
   const std::map<int, std::string>* ext = nullptr;
   std::map<int, EvalResult> memo;
   std::set<int> visiting;
+  // When true, single-use requests are not followed.  Single-use inputs never influence a value
+  // (generator constraint) and are by documented design invisible to incremental builds, so a cycle
+  // that exists only through them need not be found by a build that does not re-run the requester.
+  bool skipSingleUse = false;
   void reset(const Program* p, const std::map<int, std::string>* e) {
     prog = p;
     ext = e;
